@@ -221,6 +221,22 @@ def artist_fp(a):
     return h.hexdigest()
 
 
+def edit_result(res):
+    """edit mutable parts of a returned object in place (regions' meta/visual, tag lists)."""
+    import regions
+    items = res if isinstance(res, (list, tuple)) else [res]
+    for r in items:
+        if isinstance(r, regions.Region) and not type(r).__name__.startswith('Compound'):
+            try:
+                for k, v in list(dict.items(r.meta)):
+                    if isinstance(v, list):
+                        v.append('edited')
+                r.meta['select'] = 0
+                r.visual['color'] = 'edited'
+            except Exception:
+                pass
+
+
 def do_op(pool, op):
     """Execute one operation on the pool; returns (family, result)."""
     import astropy.units as u
@@ -307,7 +323,11 @@ def do_op(pool, op):
                 else:
                     data = DOCS[fmt]
                 try:
-                    return name, Regions.parse(data, format=fmt).regions
+                    tfp = rfp(data) if fmt == 'fits' else None
+                    out = Regions.parse(data, format=fmt).regions
+                    if tfp is not None and rfp(data) != tfp:
+                        return name, RuntimeError('INPUT-TABLE-MUTATED')
+                    return name, out
                 except Exception as e:
                     return name, e
             if name == 'read':
@@ -367,6 +387,8 @@ def run_case(case, obs):
                 fam, res = op['op'], exc
                 obs.count('op-raised:' + op['op'])
             obs.count('op:' + fam)
+            if isinstance(res, RuntimeError) and str(res) == 'INPUT-TABLE-MUTATED':
+                obs.violation('input-mutated:parse', f'operation {op}: Regions.parse changed the FITS table it was given')
             after = pool.fingerprints()
             changed = [k for k in before if before[k] != after[k]]
             if changed:
@@ -384,11 +406,21 @@ def run_case(case, obs):
             ms = module_state()
             obs.check(ms == ms0, 'module-state-changed:' + fam, f'operation {op} changed module-level state of the library', 'module-state-unchanged')
             ms0 = ms
-            # determinism: the same operation again gives an equal result
+            # determinism: the same operation again gives an equal result - even after the first result was edited in place
+            # (a result must not be a live view of something the library keeps)
             if fam not in ('write',) and not isinstance(res, BaseException):
                 try:
+                    f1 = rfp(res)
+                    ch2 = []
+                    if fam in ('parse', 'read', 'to_sky', 'to_pixel', 'rotate', 'copy'):      # results that must be independent objects
+                        edit_result(res)
+                        after2 = pool.fingerprints()
+                        ch2 = [k for k in before if before[k] != after2[k]]
+                    if ch2:
+                        obs.violation('result-aliases-input:' + fam, f'editing the result of {op} in place changed {ch2[:3]}')
+                        pool = Pool(case['pool'], workdir)
                     fam2, res2 = do_op(pool, op)
-                    obs.check(rfp(res) == rfp(res2), 'not-deterministic:' + fam, f'operation {op} gave a different result when repeated', 'deterministic')
+                    obs.check(f1 == rfp(res2), 'not-deterministic:' + fam, f'operation {op} gave a different result when repeated', 'deterministic')
                 except Exception as exc:
                     obs.violation('not-deterministic:' + fam, f'operation {op} succeeded, then raised {type(exc).__name__} when repeated')
         # parsing B after A equals parsing B alone
